@@ -36,6 +36,15 @@ def cells(tier):
                     cid = 'C08/table/%s/%s/lead%d%s' % (tag, shape, lead, '/ws' if ws else '')
                     out.append(Cell(pid=PID, cid=cid, harness='h_classify:table_cell', params=P, sym=sym,
                                     pre=pre, timeout=T, cost=1))
+    # decoy siblings from a foreign XML namespace, named like message elements (solver-chosen which)
+    for tag in TAGS:
+        for shape in (('std',) if tier == 'quick' else ('std', 'rich')):
+            P = {'tag': tag, 'shape': shape, 'lead': 2, 'ws': False, 'ns': True}
+            sym = [('i', 'int'), ('c0', 'str'), ('pos', 'int')]
+            pre = ['0 <= i < %d' % len(TAGS), 'len(c0) == 1', '32 <= ord(c0) <= 126', '0 <= pos <= 2']
+            out.append(Cell(pid=PID, cid='C08/table/%s/%s/foreign-namespace-siblings' % (tag, shape), harness='h_classify:table_cell',
+                            params=P, sym=sym, pre=pre, timeout=T, cost=4,
+                            example={'i': TAGS.index('roDelete' if tag != 'roDelete' else 'roStorySend'), 'c0': 'x', 'pos': 2}))
     for lo, hi in bounds(tier)['free_tag_lengths']:
         P = {'maxlen': hi}
         pre = ["re.fullmatch('[A-Za-z]{%d,%d}', tag)" % (lo, hi)]
